@@ -546,6 +546,51 @@ class Repo:
             raise NotConstant('bind')
 
     # ----------------------------------------------------------------- utilities
+    # ------------------------------------------------------------------ helpers extracted by later refactorings
+    _known_functions = None
+
+    def is_fresh(self, qual: str) -> bool:
+        """True for a function that is not in reference/known_functions.json (it did not exist when the checks were written)."""
+        cls = type(self)
+        if cls._known_functions is None:
+            import json as _j
+            path = os.path.join(os.path.dirname(os.path.abspath(__file__)), 'reference', 'known_functions.json')
+            try:
+                with open(path) as f:
+                    cls._known_functions = set(_j.load(f)['functions'])
+            except OSError:
+                cls._known_functions = set()
+        return bool(cls._known_functions) and qual not in cls._known_functions
+
+    def with_fresh_callees(self, fi: 'FuncInfo', _seen=None) -> List['FuncInfo']:
+        """fi plus, transitively, every fresh function it calls by a plain or self/cls-qualified name (syntactic rules that audit
+        the constants or statements of one function must follow a block that a refactoring moved into a new helper)."""
+        seen = _seen if _seen is not None else {}
+        if fi.qualname in seen:
+            return list(seen.values())
+        seen[fi.qualname] = fi
+        for n in ast.walk(fi.node):
+            if not isinstance(n, ast.Call):
+                continue
+            tgt = None
+            if isinstance(n.func, ast.Name):
+                q = self.resolve_name(fi.module, n.func.id)
+                kind, obj = self.lookup(q)
+                if kind == 'func':
+                    tgt = obj
+            elif isinstance(n.func, ast.Attribute) and isinstance(n.func.value, ast.Name) and n.func.value.id in ('self', 'cls') and fi.cls is not None:
+                tgt = self.find_method(fi.cls.qualname, n.func.attr)
+            elif isinstance(n.func, ast.Attribute) and isinstance(n.func.value, ast.Name):
+                q = self.resolve_name(fi.module, f'{n.func.value.id}.{n.func.attr}')
+                kind, obj = self.lookup(q)
+                if kind == 'func':
+                    tgt = obj
+                elif fi.cls is not None and n.func.value.id == fi.cls.name:
+                    tgt = self.find_method(fi.cls.qualname, n.func.attr)
+            if tgt is not None and self.is_fresh(tgt.qualname):
+                self.with_fresh_callees(tgt, seen)
+        return list(seen.values())
+
     def digest(self) -> str:
         h = hashlib.sha256()
         for name in sorted(self.modules):
